@@ -1,7 +1,7 @@
 """C07 — reclaimed identities never alias memoized state or field data."""
 from checks_path import *  # noqa
 from seq_common import run_seq, replay_seq
-from store_common import run_store
+from store_common import run_store, run_store_nat
 
 PROPERTY = 'C07'
 PROPS = ['SalsaVerif.Props.C07']
@@ -18,12 +18,12 @@ ASSUMPTIONS = ['integrated claim rests on the oracle comparison, the theorems ar
 def ties(ctx):
     n = 2500 if ctx.tier == 'quick' else 200000
     m = 1500 if ctx.tier == 'quick' else 60000
-    return [run_store(ctx, 'intern', m), run_seq(ctx, 'full', n, seed_offset=9)]
+    return [run_store(ctx, 'intern', m), run_store_nat(ctx, 6 if ctx.tier == 'quick' else 300), run_seq(ctx, 'full', n, seed_offset=9)]
 
 def search(ctx, reason):
     t = run_seq(ctx, 'full', 300000, seed_offset=94, tag='search-full')
     for f in t.failures:
-        if f.kind == 'oracle':
+        if f.kind == 'oracle' and f.key not in listed_keys():
             return f
     return None
 
